@@ -537,6 +537,8 @@ class ndarray:
         k, kind = self._norm_index(k)
         if kind == "basic":
             self._need_fixed()
+            if isinstance(v, ndarray) and v.n is not None:
+                v = v.fixed()
             # shadow assignment: casting / broadcasting errors from real numpy
             sh = rnp.zeros(self.o.shape, self.d)
             sh[k] = shadow_scalar(v) if not isinstance(v, (rnp.ndarray, rnp.generic)) else v
